@@ -290,7 +290,9 @@ func (g *gen) displayNameOf(quotedSeparators bool) string {
 // fromTo draws a From/To value for uri. tag "" = no tag.
 func (g *gen) fromTo(uri string, tag string, decorate bool) string {
 	var s string
-	if decorate && g.chance(70) || strings.ContainsAny(uri, ";?,") {
+	if !strings.ContainsAny(uri, ";?,") && g.chance(12) {
+		s = uri // the addr-spec form: no brackets (legal when the URI has no ';', '?' or ',')
+	} else if decorate && g.chance(70) || strings.ContainsAny(uri, ";?,") {
 		s = g.displayName() + "<" + uri + ">"
 	} else if decorate {
 		s = "<" + uri + ">"
@@ -343,6 +345,14 @@ func (g *gen) reason(status int) string {
 		return "SIP/2.0 " + strconv.Itoa(status) + " Again"
 	}
 	return g.pick("OK", "Ringing", "Not Found", "Busy Here", "Session Progress", "Whatever it is")
+}
+
+// cseqSep: what stands between the sequence number and the method (LWS: one blank, now and then more or a tab)
+func (g *gen) cseqSep() string {
+	if g.chance(6) {
+		return g.pick("  ", "\t", " \t ")
+	}
+	return " "
 }
 
 func (g *gen) tagValue() string {
